@@ -7,7 +7,7 @@ from .. import ref as R, gen
 
 NBATCH = {'quick': 16, 'thorough': 64}
 BUDGET_S = {'quick': 70, 'thorough': 180}
-PER_BATCH = {'quick': 40, 'thorough': 500}     # grammars per family per batch
+PER_BATCH = {'quick': 110, 'thorough': 2000}     # grammars per family per batch
 FLOORS = {
     'quick': {'distinct_nontrivial': 1500, 'feature:cyclic': 100, 'feature:nullable': 300,
               'feature:ignore-carry': 100, 'judged:basic': 800, 'judged:dynamic': 1500,
